@@ -302,10 +302,13 @@
   (bag-product! n (bag-copy bag)))
 
 (define (bag-product! n bag)
-  (for-each
-   (lambda (elt)
-     (hash-table-update! (bag-table bag) elt (lambda (count) (* n count))))
-   (hash-table-keys (bag-table bag)))
+  (if (zero? n)
+      ;; a count of zero means the element is not in the bag
+      (hash-table-clear! (bag-table bag))
+      (for-each
+       (lambda (elt)
+         (hash-table-update! (bag-table bag) elt (lambda (count) (* n count))))
+       (hash-table-keys (bag-table bag))))
   bag)
 
 (define (bag-unique-size bag)
